@@ -291,6 +291,7 @@ fn cmd_check(args: &[String], reg: &Reg, table: ProfileTable) -> i32 {
     let mut violation: Option<(String, PathBuf)> = None;
     let mut known_hits: Vec<String> = vec![];
     let mut harness: Vec<String> = vec![];
+    let mut unreproduced: Vec<String> = vec![];
     let mut total_viol = 0;
     let mut probes_run = 0u64;
     for (p, share) in &ps {
@@ -376,8 +377,8 @@ fn cmd_check(args: &[String], reg: &Reg, table: ProfileTable) -> i32 {
                                 println!("(depends on process-wide state carried across runs; replay = single-threaded history found by search)");
                                 violation = Some((f.oracle.clone(), PathBuf::from(path)));
                             }
-                            _ => harness.push(format!(
-                                "run {} failed ({}) but neither its minimised plan, nor its thread history, nor a single-threaded search reproduced it in a fresh process: determinism leak",
+                            _ => unreproduced.push(format!(
+                                "run {} failed ({}) but neither its minimised plan, nor its thread history, nor a single-threaded search reproduced it in a fresh process",
                                 run, f.oracle
                             )),
                         }
@@ -424,6 +425,20 @@ fn cmd_check(args: &[String], reg: &Reg, table: ProfileTable) -> i32 {
                         break;
                     }
                 }
+            }
+        }
+        // A failure of the sweep that no fresh process reproduces is a determinism leak of the
+        // simulator -- unless a cold-start probe (fresh process, one thread: deterministic by
+        // construction) shows a violation of the same property: then the state that made the
+        // sweep's failure unrepeatable is the code under test's (process-wide, set by whichever
+        // contract ran first), and the probe's history is the replay.
+        if !unreproduced.is_empty() {
+            if violation.is_some() {
+                for u in unreproduced.drain(..) {
+                    println!("note: {u}; a cold-start probe reproduces a violation of this property in a fresh process, so the state carried across runs is the code under test's");
+                }
+            } else {
+                harness.extend(unreproduced.drain(..).map(|u| format!("{u}: determinism leak")));
             }
         }
         per_profile.push((p.name().to_string(), agg));
